@@ -202,6 +202,15 @@ CLAIMED['C02'] = dict(
     technique="vector-kind agreement, flag-definition and flag-implies-fetch rules, decision-table rules on the verdict switches over the clang-resolved AST and CFG",
     ref="DESIGN.md section 4, C02")
 
+CLAIMED['C19'] = dict(
+    text="Two ownership clauses only: every container / vector class that releases a raw-pointer member in its destructor has user-provided or deleted "
+         "copy operations that never copy that pointer verbatim; the address shift returned by the arena reallocators reaches the re-basing code at "
+         "every call site, or its discard is structurally justified (arena's own class, full rebuild, clear of every dependent container, offsets "
+         "instead of pointers). The abstract-data-type behaviour itself (key stability, dense numbering, permutations, hash-table deletion, vector "
+         "arithmetic, sorting) quantifies over operation sequences and contents and is NOT decided.",
+    technique="rule-of-three and returned-shift dataflow rules over class facts and resolved call sites",
+    ref="DESIGN.md section 4, C19")
+
 NA = {
     'C10': "every clause quantifies over run-time numbers (residuals at rounding level, singular vs. well-conditioned, agreement of multi-rhs solves); "
            "no structural clause is both checkable and necessary (DESIGN.md section 5)",
